@@ -10,6 +10,7 @@ from vlib.bench import Bench
 LEVEL = "exploration"
 SHARDS = {"quick": 4, "thorough": 16}
 TIMEOUT = {"quick": 900, "thorough": 2400}
+MIN_EVALUATIONS = {"quick": 8000, "thorough": 8000}  # fewer oracle evaluations than this means the workload collapsed: inconclusive
 RULE = ("generic_message over: service 0..0x7F (int and bytes), class/instance/attribute as int or 1/2/4-byte bytes over 8/16/32-bit "
         "values, request data of every length 0..64 and random to 400, transports {connected, direct UCMM, Unconnected Send}, route_path "
         "in {True, False, string, segment list, pre-encoded bytes}, driver paths spelled from the path grammar over 0-3 hop chassis, any "
@@ -145,6 +146,8 @@ def run(ctx):
                 while cls_v in (1, 6):
                     cls_v = pick_value(rng)
                 inst_v, attr_v = pick_value(rng), pick_value(rng)
+                if rng.random() < 0.08:
+                    inst_v = 0  # documented: instance 0 requests class attributes - it must still be delivered
                 use_attr = rng.random() < 0.5
                 n = k if k <= 64 and sc % 3 == 0 else rng.choice([0, 1, 2, 3, 7, 8, 63, 64, 65, rng.randrange(0, 400)])
                 req_data = bytes(rng.randrange(256) for _ in range(n))
@@ -314,6 +317,28 @@ def run(ctx):
                     want_dt = datetime.datetime(1970, 1, 1) + datetime.timedelta(microseconds=us)
                     if tg_.value.get("datetime") != want_dt:
                         res.violation("get_plc_time-datetime", f"get_plc_time() datetime {tg_.value.get('datetime')!r} != {want_dt!r}", None)
+            # generic messages through the controller driver use the route the driver actually connected over
+            # (a Micro800 drops the backplane hop while initialising)
+            exp_route = () if micro else ((1, slot),)
+            ctl.responder = lambda rq: (0, (), b"\x2a\x00")
+            for mode in ("usend", "ucmm"):
+                nj = len(ctl.journal)
+                data = bytes(rng.randrange(256) for _ in range(rng.choice([0, 1, 2, 5])))
+                st, tg_ = b.call("generic_message", drv.generic_message, service=0x33, class_code=0x300, instance=rng.choice([0, 1, 7]), request_data=data,
+                                 connected=False, unconnected_send=(mode == "usend"), route_path=True)
+                res.ev()
+                res.seen("helpers-gm", micro, mode, slot)
+                if st != "ok" or not tg_ or len(ctl.journal) != nj + 1:
+                    res.violation(f"controller-generic-message:{mode}", f"LogixDriver.generic_message({mode}, route_path=True) against {'Micro800' if micro else 'Logix'} in slot {slot} -> {tg_!r:.160}; "
+                                  f"requests delivered {len(ctl.journal) - nj}", {"micro800": micro, "slot": slot})
+                else:
+                    j = ctl.journal[-1]
+                    want_data = data if mode == "usend" else data + refpath.route_bytes(list(exp_route), pad_after_size=True)
+                    want_rt = exp_route if mode == "usend" else ()
+                    if j["data"] != want_data or tuple(j["route"]) != want_rt:
+                        res.violation(f"controller-generic-message-route:{mode}", f"LogixDriver.generic_message({mode}, route_path=True) ({'Micro800' if micro else 'Logix'}, slot {slot}): target saw data {j['data'].hex()} route {j['route']!r}; "
+                                      f"expected {want_data.hex()} route {want_rt!r}", {"micro800": micro, "slot": slot})
+            ctl.responder = None
             # refusal: wall clock rejects -> falsy Tag with status text
             ctl.force_status = lambda rq: (0x0F, (), b"") if rq.logical("class") == 0x8B else None
             st, tg_ = b.call("get_plc_time", drv.get_plc_time)
